@@ -266,6 +266,41 @@ def run_case(case, seed):
                     trans += O + 2
                     if bad:
                         V("exact-adjoint", name, "adjoint is not C-linear in its array argument on probe %s (err %.3g): imaginary part dropped or conjugated" % bad[0])
+        # component-wise accuracy on data whose real and imaginary parts live on very different scales (1e9 vs 1), with a
+        # real-valued operand stored in a complex dtype: each output component is a short sum of products, so its error is
+        # bounded by a few ulps of the sum of the ABSOLUTE products that enter THAT component (Higham's bound); a rewrite
+        # that mixes the components (3-multiplication tricks, FFT-based products) is exact "in norm" and loses the small one
+        if O > 0 and not viol and dt == "cc":
+            fr = np.real(ff).astype(np.complex128)
+            Dr = np.zeros((O, P), complex)
+            for pi in range(P):
+                Dr[:, pi] = ref_conv(dense.basis(P, pi, [B, ci] + m), fr.reshape([co, ci] + n), m, n, mode, s, B, ci, co).ravel()
+            dv = dense.dense_vec(P, 6)
+            dmix = (1e9 * np.real(dv) + 1j * np.imag(dv)).astype(np.complex128)
+            ymix = (np.real(dense.dense_vec(O, 7)) + 1e9j * np.imag(dense.dense_vec(O, 7))).astype(np.complex128)
+
+            def cw(name, got, Mx, v):
+                got = np.asarray(got).ravel()
+                want = Mx @ v
+                if got.shape != want.shape:
+                    return
+                Mr, Mi, vr, vi = np.abs(Mx.real), np.abs(Mx.imag), np.abs(v.real), np.abs(v.imag)
+                g_ = 1e-13 * max(4, Mx.shape[1])
+                bre = g_ * (Mr @ vr + Mi @ vi) + 1e-300
+                bim = g_ * (Mr @ vi + Mi @ vr) + 1e-300
+                worst = max(float(np.max(np.abs(got.real - want.real) / bre)), float(np.max(np.abs(got.imag - want.imag) / bim)))
+                if not worst <= 1.0:
+                    V("componentwise-accuracy", name, "data with real parts ~1e9 and imaginary parts ~1 (or vice versa) and a real-valued "
+                      "complex-dtype operand: a component is off by %.3g times its rounding-error bound" % worst)
+            try:
+                cw("conv.convolve", sp.convolve(dmix.reshape(dshape), fr.reshape(fshape), **kw), Dr, dmix)
+                AL = sp.linop.ConvolveData(dshape, fr.reshape(fshape), **kw)
+                cw("linop.ConvolveData", AL(dmix.reshape(dshape)), Dr, dmix)
+                cw("linop.ConvolveData.H", AL.H(ymix.reshape(oshape)), Dr.conj().T, ymix)
+                cw("conv.convolve_data_adjoint", sp.convolve_data_adjoint(ymix.reshape(oshape), fr.reshape(fshape), dshape, **kw), Dr.conj().T, ymix)
+                trans += 4
+            except Exception:
+                pass
         # mixed dtypes: the array handed to an adjoint and the array it is the adjoint FOR may differ in dtype (single-precision
         # complex k-space with a double or integer-valued kernel, ...); the result is the exact adjoint in the common type
         if O > 0 and not viol and dt == "cc":
